@@ -2,7 +2,7 @@
 from collections import Counter
 
 from .. import hooks
-from ..gen import canon, mk_event, rand_grid, rand_intervals, rand_nonoverlapping
+from ..gen import big_n, canon, mk_event, rand_grid, rand_intervals, rand_nonoverlapping
 from ..model import allen, closed_union, measure
 from . import _tx
 from ._tx import exc_viol, is_event_list, iv, snap, tmod, unmodified
@@ -144,7 +144,9 @@ def gen_case(rng, ctx):
     base, unit = rand_grid(rng)
     span = rng.choice([6, 10, 16, 30])
     fn = "intersect" if rng.random() < 0.55 else "union"
-    na, nb = rng.randrange(0, 11), rng.randrange(0, 11)
+    na, nb = big_n(rng, rng.randrange(0, 11)), big_n(rng, rng.randrange(0, 11))
+    if max(na, nb) > 50:
+        span = 3 * max(na, nb)
     if fn == "intersect":
         a = rand_nonoverlapping(rng, na, span)
         b = rand_nonoverlapping(rng, nb, span)
